@@ -114,26 +114,35 @@ contract(R + 'peek', props=['C09', 'C03', 'C07'], axioms=[pos_defs],
     labels={0: 'inv_reader', 1: 'position-unchanged', 2: 'the-character-of-the-input-at-that-offset'},
     modifies=['self.buffer', 'self.pointer', 'self.raw_buffer', 'self.eof', 'self.stream_pointer', 'self.stream.g_read'], raises=[RERR], raises_any=True)
 
-def prefix_is_window(cx):
+def prefix_len(cx):
     S = _S(cx)
     r = sv(cx.result.t)
     idx = iv(cx.ev('self.index').t)
     ln = iv(cx.ev('length').t)
-    j = z3.Int('pre_j')
     avail = z3.Length(S) - idx
-    return z3.And(z3.Length(r) == z3.If(ln <= avail, ln, avail),
-                  z3.ForAll([j], z3.Implies(z3.And(0 <= j, j < z3.Length(r)), at(r, j) == at(S, idx + j))))
+    return z3.Length(r) == z3.If(ln <= avail, ln, avail)
 
 
-prefix_is_window.__name__ = 'result is S[index : index+length] (clipped at the end of the input), character by character'
+prefix_len.__name__ = 'result has min(length, what is left of the input) characters'
+
+
+def prefix_is_window(cx):
+    S = _S(cx)
+    r = sv(cx.result.t)
+    idx = iv(cx.ev('self.index').t)
+    j = z3.Int('pre_j')
+    return z3.ForAll([j], z3.Implies(z3.And(0 <= j, j < z3.Length(r)), at(r, j) == at(S, idx + j)))
+
+
+prefix_is_window.__name__ = 'result is S[index : index+len(result)], character by character'
 
 
 contract(R + 'prefix', props=['C09', 'C03', 'C07'], axioms=[pos_defs],
     params={'length': 'int'},
     requires=[inv_reader, "length >= 0"],
     result='str',
-    ensures=[inv_reader, POS_SAME, prefix_is_window],
-    labels={0: 'inv_reader', 1: 'position-unchanged', 2: 'the-next-characters-of-the-input'},
+    ensures=[inv_reader, POS_SAME, prefix_len, prefix_is_window],
+    labels={0: 'inv_reader', 1: 'position-unchanged', 2: 'as-many-characters-as-asked-or-left', 3: 'the-next-characters-of-the-input'},
     modifies=['self.buffer', 'self.pointer', 'self.raw_buffer', 'self.eof', 'self.stream_pointer', 'self.stream.g_read'], raises=[RERR], raises_any=True)
 
 contract(R + 'forward', props=['C09', 'C07', 'C03'], axioms=[pos_defs],
